@@ -8,6 +8,7 @@ Open Scope Z_scope.
 (* Model.Sched: sq_when m <? sq_when q (heap order, :122), w <? armed (:51), the no-churn window (:90), next >=? sq_expire (:102),
    sent >=? C_STARTUP_QUERIES (:174), sq_when q >? now (:138), sq_when q >? next_time (:192) *)
 Definition sites_C10_ops : Prop :=
+  sites_found_C10 = true /\
   site_sched_lt = Slt /\ site_sched_le = Slt /\ site_sched_ge = Sgt /\ site_sched_gt = Sgt /\
   site_sched_rearm = Slt /\ site_sched_no_churn_1 = Sle /\ site_sched_no_churn_2 = Sle /\
   site_sched_rescue_past_expiry = Sge /\ site_sched_startup_done = Sge /\ site_sched_startup_done_rhs = 4 /\
@@ -23,6 +24,7 @@ Lemma sites_C10_ops_ok : sites_C10_ops. Proof. repeat split; reflexivity. Qed.
    the four offsets of _has_more_to_add; Gen.Shapes carries the label limit for the theorems, repeated here with its count;
    Model.Front / Zeroconf.async_send: packets above _MAX_MSG_ABSOLUTE are not sent *)
 Definition sites_C14_ops : Prop :=
+  sites_found_C14 = true /\
   site_enc_label_limit = Sgt /\ site_enc_label_limit_rhs = 63 /\ site_enc_string_limit = Sgt /\ site_enc_string_limit_rhs = 256 /\
   site_enc_fits = Sle /\ site_enc_rollback_names = Sge /\
   site_enc_more_questions = Slt /\ site_enc_more_answers = Slt /\ site_enc_more_authorities = Slt /\ site_enc_more_additionals = Slt /\
@@ -34,6 +36,7 @@ Lemma sites_C14_ops_ok : sites_C14_ops. Proof. repeat split; reflexivity. Qed.
 
 (* Model.Register.check_turn: ck_i k <? C_REGISTER_BROADCASTS (:83), now <? ck_next k1 (:88) *)
 Definition sites_C09_ops : Prop :=
+  sites_found_C09 = true /\
   site_reg_probe_count = Slt /\ site_reg_probe_count_rhs = 3 /\ site_reg_probe_wait = Slt /\ ncmp_core_Zeroconf_async_check_service = 2.
 Lemma sites_C09_ops_ok : sites_C09_ops. Proof. repeat split; reflexivity. Qed.
 
@@ -41,6 +44,7 @@ Lemma sites_C09_ops_ok : sites_C09_ops. Proof. repeat split; reflexivity. Qed.
    |seen| >=? MAX_DNS_LABELS (:78), |labels| >? MAX_DNS_LABELS (:89); read_name: |name| >? MAX_NAME_LENGTH (:110); read_bitmap: o <? endo (:141);
    Model.Front.to_qmsg: is_probe = 0 <? m_nauth *)
 Definition sites_C02_ops : Prop :=
+  sites_found_C02 = true /\
   site_dec_in_packet = Slt /\ site_dec_is_label = Slt /\ site_dec_is_label_rhs = 64 /\ site_dec_is_reserved = Slt /\ site_dec_is_reserved_rhs = 192 /\
   site_dec_link_beyond = Sgt /\ site_dec_pointer_budget = Sge /\ site_dec_pointer_budget_rhs = 128 /\
   site_dec_label_budget = Sgt /\ site_dec_label_budget_rhs = 128 /\ site_dec_name_limit = Sgt /\ site_dec_name_limit_rhs = 253 /\
